@@ -3,6 +3,7 @@ CONSTANT Params <- EfiParamsSet
 CONSTANT MkCase <- EfiCase
 CONSTANT MaxD = 64
 CONSTANT LCap = 100
+CONSTANT EfiSizeSet = {}
 INVARIANT DesignAccepted
 INVARIANT DesignControlled
 INVARIANT Export
